@@ -828,8 +828,8 @@ class Builder:
                 anc = self.exc.ancestors_of_ref(ref) or set()
                 hname = ref.name if isinstance(ref, ClassInfo) else ref[1].split('.')[-1]
                 if exc[0] == 'cancel':
-                    if hname == 'BaseException':
-                        res = 'yes'
+                    if hname in ('BaseException', 'CancelledError'):
+                        res = 'yes'           # the cancel universe is the CancelledError thrown by Task.cancel()
                     elif 'Exception' in anc:
                         res = 'no'
                     else:
